@@ -1,6 +1,6 @@
-(* Property C06 (TCP output) -- statements only. *)
+(* Property C06 (the output file's packets) -- statements only: TCP conversation and segments, UDP datagrams, IPv4 and IPv6 headers. *)
 From Coq Require Import ZArith List Bool.
-Require Import PyLib Checksum Rfc1071 C11P Packet Reassembly TlsSession OutputBuilder Frames Reader BuilderP FramesP.
+Require Import PyLib Checksum Rfc1071 C11P Packet Reassembly TlsSession OutputBuilder Frames Reader BuilderP FramesP FramesUdpP.
 Import ListNotations.
 Open Scope Z_scope.
 
@@ -32,3 +32,20 @@ Theorem C06_ipv4_header : forall src dst proto payload, bytes_ok src -> bytes_ok
               slice hdr 2 4 = to_be_total (20 + len payload) 2.
 Proof. exact ipv4_valid. Qed.
 Print Assumptions C06_ipv4_header.
+
+(* every UDP datagram written for a QUIC export (field values in range): ports, length field and payload in place, and a checksum
+   that verifies against the pseudo-header of its address family -- also when the computed checksum is 0 and 0xFFFF is written *)
+Theorem C06_udp_datagram : forall src dst sport dport payload,
+  ip_ok src dst -> bytes_ok payload -> len payload < 65528 -> 0 <= sport < 65536 -> 0 <= dport < 65536 ->
+  exists dg, udp_datagram src dst sport dport payload = Ok dg /\ len dg = 8 + len payload /\
+             slice dg 0 2 = to_be_total sport 2 /\ slice dg 2 4 = to_be_total dport 2 /\ slice dg 4 6 = to_be_total (8 + len payload) 2 /\
+             slice_from dg 8 = payload /\
+             checksum_valid (spec_pseudo' src dst 17 (len dg)) dg = true.
+Proof. exact udp_datagram_valid. Qed.
+Print Assumptions C06_udp_datagram.
+
+(* the IPv6 header written: version 6, payload length, next header, hop limit 64, addresses, then the payload *)
+Theorem C06_ipv6_header : forall src dst nxt payload, len payload < 65536 ->
+  ipv6 src dst nxt payload = Ok ([0x60; 0; 0; 0] ++ to_be_total (len payload) 2 ++ [nxt; 64] ++ src ++ dst ++ payload).
+Proof. exact ipv6_valid. Qed.
+Print Assumptions C06_ipv6_header.
